@@ -533,3 +533,35 @@ def run(ck):
               "the status line is `HTTP-version SP status-code SP reason-phrase CRLF`: the code is written in decimal and the space after it "
               "is written unconditionally (an empty reason phrase still needs it)",
               key_pred=lambda k: k.startswith("server-writes"), min_instances=2)
+
+    # ---------------- R7: a writer leaves the caller's stream as it found it ----------------
+    ck.rule("C05-R7", "C must-pass-through (sticky stream state)",
+            "a library function that writes into a std::ostream it was handed (header, cookie, date, media-type and status-line writers) "
+            "and selects another numeric base on it (std::hex, std::oct, setf(hex)) restores the decimal base on every path before it "
+            "returns: the flag is sticky, and the next number written to the same stream -- the Content-Length, a status code, a max-age "
+            "-- would come out in that base", 1)
+    nwr = 0
+    for f in prog.library_funcs():
+        osp = [p_["name"] for p_ in f.params if "ostream" in (p_.get("type") or "") and "&" in (p_.get("type") or "")]
+        if not osp or not f.blocks:
+            continue
+        nwr += 1
+
+        def manip(ev, names):
+            if ev["k"] != "call":
+                return False
+            if ev.get("op") == "<<" or (ev.get("callee") or "").rsplit("::", 1)[-1] in ("setf", "flags", "operator<<"):
+                txt = " ".join((a.get("t") or "") for a in ev.get("args", [])[-2:])
+                return any(re.search(r"(^|[^\w])(std::)?(ios(_base)?::)?%s($|[^\w])" % n_, txt) for n_ in names)
+            return False
+        sets = [e for e in f.events("call") if manip(e, ("hex", "oct"))]
+        for e in sets:
+            restores = lambda ev: manip(ev, ("dec",)) or (ev["k"] == "call" and (ev.get("callee") or "").rsplit("::", 1)[-1] in ("flags", "copyfmt") and ev is not e)
+            loose = [x for x in cfg.exits_without(f, restores, start_block=e.block, start_idx=e.idx + 1) if x.kind != "throw"]
+            ck.ob("C05-R7", "%s/base-restored" % f.base.replace("Pistache::", ""), not loose, e.loc, f,
+                  "the decimal base is restored on every path" if not loose else
+                  "%s selects another numeric base on the caller's stream at line %s and can return without restoring std::dec: numbers written "
+                  "later to the same stream (Content-Length, status code) are printed in that base" % (f.name, e.get("l")))
+    ck.require(nwr >= 10, "writers taking a std::ostream&: %d" % nwr)
+    ck.ob("C05-R7", "writers-with-a-caller-stream", True, "", "", "%d library functions take a std::ostream&; every base change among them judged above" % nwr, nontrivial=False)
+
